@@ -23,7 +23,8 @@ from radical.pilot.raptor        import worker_mpi as wm
 from radical.pilot.raptor.worker import Worker
 
 KINDS = ['eval_ok', 'eval_ok', 'eval_bad', 'exec_ok', 'func_comm', 'func_nocomm', 'func_unknown',
-         'mode_unknown', 'func_raises']
+         'mode_unknown', 'func_raises', 'proc_ok', 'proc_rank_killed', 'shell_rank_fails']
+NO_EXC = ('proc_ok', 'proc_rank_killed', 'shell_rank_fails')     # processes report a code, no exception
 
 
 def c20_takes_comm(comm, x):
@@ -94,6 +95,17 @@ def _request(uid, kind, ranks, sbox):
         d.update(mode=rp.TASK_FUNC, function='c20_no_such_function'); ok = False
     elif kind == 'func_raises':
         d.update(mode=rp.TASK_FUNC, function=rp.PythonTask(c20_raises, args=(None, 1))); ok = False
+    elif kind == 'proc_ok':
+        d.update(mode=rp.TASK_PROC, executable='/bin/true', arguments=[])
+    elif kind == 'proc_rank_killed':
+        # every rank but the first is killed by a signal
+        # (the command line runs under `sh -c`: where that shell replaces itself by the program -
+        # bash does - this is what a crashing program looks like; here the shell takes the signal)
+        d.update(mode=rp.TASK_PROC, executable='test "$RP_RANK" = "0" || kill -9 $$', arguments=[])
+        ok = ranks == 1
+    elif kind == 'shell_rank_fails':
+        d.update(mode=rp.TASK_SHELL, command='test "$RP_RANK" = "0"')
+        ok = ranks == 1
     else:
         d.update(mode='task.bogus'); ok = False
     task = {'uid': uid, 'name': uid, 'description': d,
@@ -240,13 +252,17 @@ def run_case(case):
                 continue
             r = b[0]
             ret = r.get('exit_code')
-            if ok:
+            if ok and kind in NO_EXC:
+                if ret != 0:
+                    res.fail('mpi_worker:success_misreported', '%s (%s, %d ranks): exit %r stderr %r'
+                             % (uid, kind, nr, ret, r.get('stderr')))
+            elif ok:
                 vals = r.get('return_value')
                 vals = vals if nr > 1 or isinstance(vals, list) else [vals]
                 if ret != 0 or list(vals) != [val] * nr:
                     res.fail('mpi_worker:success_misreported', '%s (%s, %d ranks): exit %r value %r '
                              'stderr %r' % (uid, kind, nr, ret, r.get('return_value'), r.get('stderr')))
-            elif ret in (0, None) or not r.get('exception'):
+            elif ret in (0, None) or (kind not in NO_EXC and not r.get('exception')):
                 res.fail('mpi_worker:failure_misreported', '%s (%s, %d ranks): exit %r exception %r'
                          % (uid, kind, nr, ret, r.get('exception')))
         busy = resources._resources['cores'].count(wm.BUSY)
